@@ -526,7 +526,10 @@ def main(argv):
         mod = importlib.import_module(a.pid)
         mod.run(ctx)
         rc = ctx.finish()
-    except BuildError as e:
+    except Exception as e:
+        # checks import this file as module `fw` while it runs as `__main__`: match the exception class by name
+        if type(e).__name__ != "BuildError":
+            raise
         log("ERROR build: %s" % e)
         log("%s makes no claim on a tree that does not build" % a.pid)
         return 2
